@@ -5,10 +5,96 @@ sys.path.insert(0, os.path.join(ROOT, 'gen'))
 sys.path.insert(0, os.path.join(ROOT, 'pygen'))
 import tables
 import exprs as X
+import models as M
+import subprocess
 
 
 def dec(h):
     return bytes.fromhex(h[1:]).decode('latin-1') if h.startswith('#') else h
+
+
+def systems_stage(chk, lib, replay_text=None):
+    """second tie (implementation only): whole generated models — parse, analyse, generate C and Python, compile / execute,
+    compare every reported constant, computed constant, algebraic variable, state and rate with the ground truth"""
+    hxg = build_hx('hx_gencode', lib)
+    rng = random.Random(chk.seed + 1)
+    n = 1 if replay_text else (60 if chk.tier == 'quick' else 700)
+    stats = {'systems': 0, 'fragile_regenerated': 0, 'ode': 0, 'algebraic': 0, 'values_compared': 0, 'rates_compared': 0, 'scaled_members': 0}
+    fails = []
+    attempts = 0
+    while stats['systems'] < n and attempts < 20 * n:
+        attempts += 1
+        if replay_text:
+            text, sysd = replay_text, None
+        else:
+            sysd = M.gen_system(rng, ncomp=rng.randint(1, 4), nq=rng.randint(2, 10), depth=rng.randint(1, 4), ode=rng.random() < 0.7)
+            try:
+                M.ground_truth(sysd)
+            except M.Fragile:
+                stats['fragile_regenerated'] += 1; continue
+            text = M.to_cellml(sysd, rng)
+        stats['systems'] += 1
+        wd = tempfile.mkdtemp(prefix='c03m-')
+        try:
+            fn = os.path.join(wd, 'm.cellml'); open(fn, 'w').write(text)
+            results = {}
+            for prof in ('C', 'PY'):
+                r = subprocess.run([hxg, fn, prof], capture_output=True, text=True, timeout=120)
+                out = r.stdout
+                if '=====IMPL' not in out:
+                    fails.append((prof + ': the library crashed (rc=%d)' % r.returncode, text, '')); break
+                info = out[out.index('=====INFO') + 10:out.index('=====IFACE')]
+                iface = out[out.index('=====IFACE') + 11:out.index('=====IMPL')]
+                impl = out[out.index('=====IMPL') + 10:]
+                ty = [l.split()[1] for l in info.split('\n') if l.startswith('type ')][0]
+                if sysd is None:
+                    ode = ty == 'ode'
+                else:
+                    ode = sysd['ode']
+                    if ty != ('ode' if ode else 'algebraic'):
+                        fails.append(('%s: a well-posed %s system is analysed as %s: %s' % (prof, 'ODE' if ode else 'algebraic', ty, info[:300]), text, '')); break
+                if prof == 'C':
+                    stats['ode' if ode else 'algebraic'] += 1
+                    lines, err = M.run_generated_c(impl, iface, wd, ode)
+                else:
+                    lines, err = M.run_generated_py(impl, ode)
+                if err:
+                    fails.append(('%s: generated code does not run: %s' % (prof, err), text, impl[-1500:])); continue
+                results[prof] = lines
+                if sysd is None:
+                    continue
+                voi = [x for x in lines if x.startswith('VOI')]
+                for l in lines:
+                    t = l.split()
+                    if not t or t[0] == 'VOI':
+                        continue
+                    exp = M.expected_value(sysd, t[1], t[2])
+                    if exp is None:
+                        fails.append(('%s: reports an unknown variable %s' % (prof, l), text, '')); continue
+                    stats['values_compared'] += 1
+                    if M.scale(exp[2].members[int(t[1][1:])][1]) != 1.0:
+                        stats['scaled_members'] += 1
+                    if not X.same(exp[0], float(t[3])):
+                        fails.append(('%s: %s.%s = %r, the equations give %r' % (prof, t[1], t[2], float(t[3]), exp[0]), text, impl[impl.find('nitialise'):][:2500]))
+                    if t[0] == 'S':
+                        v = voi[0].split()
+                        sv = M.scale(sysd['qs'][0].members[int(v[1][1:])][1])
+                        er = exp[2].rate / M.scale(exp[2].members[int(t[1][1:])][1]) * sv
+                        stats['rates_compared'] += 1
+                        if not X.same(er, float(t[4])):
+                            fails.append(('%s: rate of %s.%s = %r, the equations give %r' % (prof, t[1], t[2], float(t[4]), er), text, impl[impl.find('nitialise'):][:2500]))
+            if sysd is None and len(results) == 2:
+                a = [l.split() for l in results['C'] if l.split()]; b = [l.split() for l in results['PY'] if l.split()]
+                for x, y in zip(a, b):
+                    if x[:3] != y[:3] or (x[0] != 'VOI' and not X.same(float(x[3]), float(y[3]))):
+                        fails.append(('the C and Python implementations disagree: %s vs %s' % (x, y), text, ''))
+        finally:
+            shutil.rmtree(wd, ignore_errors=True)
+    chk.cov['systems_stage'] = stats
+    for what, text, extra in fails[:3]:
+        chk.violation('generated implementation does not compute what the model says: ' + what,
+                      {'kind': 'oracle', 'engine': 'systems', 'cellml': text, 'why': what, 'generated_excerpt': extra}, True)
+    return stats
 
 
 def run(chk, replay=None):
@@ -44,6 +130,9 @@ def run(chk, replay=None):
             consts[t[2]] = float(dec(t[3]))
     X.CONST_VALUES = consts
     rng = random.Random(chk.seed)
+    if replay and 'cellml' in json.load(open(replay)):
+        systems_stage(chk, lib, json.load(open(replay))['cellml'])
+        return
     if replay:
         r = json.load(open(replay))
         trees = [X.from_json(t) for t in r['trees']]
@@ -119,6 +208,8 @@ def run(chk, replay=None):
                    traces_validated_against_impl=2 * len(trees) - len(disagree), exhaustive=False,
                    outcome_histogram=hist, parent_child_edges_covered=len(edges), node_types_covered=len(types),
                    executed_values=nval, model_flags_bad=len(flagbad))
+    if not replay:
+        systems_stage(chk, lib)
     def tj(t):
         return None if t is None else ([t[0], t[1]] if t[0] in ('cn', 'ci') else [t[0], tj(t[1]), tj(t[2])])
     orafail.sort(key=lambda x: X.size(x[1]))
